@@ -920,7 +920,18 @@ class Generator(TreeListener):
                         # Modelica indexing starts from one;  Python from zero.
                         first = 1 if sl.start is None else sl.start
                         last = dim if sl.stop is None else sl.stop
-                        if isinstance(first, int) and isinstance(last, int) and first > last:
+                        if isinstance(sl.step, int) and sl.step <= 0:
+                            # The checks and the conversion below are for ascending ranges
+                            symbol_name = (
+                                s.name()
+                                if len(tree.indices) == 1
+                                else s.name().split(".")[i] + " in nested symbol " + s.name()
+                            )
+                            raise ValueError(
+                                "Slice {}:{}:{} of symbol {} has a step that is not positive, "
+                                "which is not supported.".format(first, sl.step, last, symbol_name)
+                            )
+                        elif isinstance(first, int) and isinstance(last, int) and first > last:
                             # An empty Modelica range selects nothing. Do not let negative
                             # bounds wrap around in Python.
                             sl = slice(0, 0, sl.step)
